@@ -688,7 +688,7 @@ def farkas_from_explanation(s, mod, nrows):
     return [int(x * den) for x in lam]
 
 
-def run_simplex(mod, rows, enc):
+def run_simplex(mod, rows, enc, limit=20):
     """(verdict, payload): ('sat', {var: Fraction}), ('unsat', multipliers or None), ('raise', name), ('timeout',).
     The verdict comes from the public behaviour (handle_assertion returns / raises UNSATException,
     AssertUpperException, AssertLowerException).  The Farkas multipliers are read from internals
@@ -714,7 +714,7 @@ def run_simplex(mod, rows, enc):
     except Exception:  # noqa
         pass
     try:
-        with time_limit(20):
+        with time_limit(limit):
             s.handle_assertion()
     except Timeout:
         return ("timeout",), s
@@ -755,13 +755,20 @@ def qvec(val, nv):
     return [int(x * den) for x in xs], den
 
 
-def check_simplex(ctx, simplex, systems, label):
+def check_simplex(ctx, simplex, systems, label, encs=None):
     rng = ctx.rng("simplex-enc-" + label)
     runs = []
     lines = []
-    for rows, shape in systems:
-        enc = choose_enc(rng, rows)
+    for k, (rows, shape) in enumerate(systems):
+        enc = encs[k] if encs is not None else choose_enc(rng, rows)
         res, s = run_simplex(simplex, rows, enc)
+        if res[0] == "timeout":
+            # "for every system" the procedure has to answer: confirm with a long limit, then it is a violation
+            res, s = run_simplex(simplex, rows, enc, limit=90)
+            if res[0] == "timeout":
+                key = rows_key(rows) + "/" + "".join("g" if e else "l" for e in enc)
+                report(ctx, "simplex:nontermination", key, "Simplex.handle_assertion() on %s (encoding %s) does not return within 90 s (check() keeps pivoting)"
+                       % (rows, key.split("/")[1]), {"kind": "simplex", "rows": rows, "enc": enc, "result": "timeout"})
         runs.append((rows, enc, res))
         nv = len(rows[0]) - 1
         if res[0] == "sat":
@@ -1397,6 +1404,8 @@ def run(ctx):
     from prover import simplex, simplex_strict
     rng = ctx.rng("simplex")
     sys2 = [gen_system(rng) for _ in range(ctx.scale(1500, 10000))]
+    scorp = load_simplex_corpus(ctx)
+    check_simplex(ctx, simplex, [(c["rows"], "corpus") for c in scorp], "corpus", encs=[c["enc"] for c in scorp])
     check_simplex(ctx, simplex, sys2, "random")
     check_simplex_model(ctx, simplex, sys2, "random")
     ctx.log("simplex stream done (%d)" % len(sys2))
@@ -1423,6 +1432,14 @@ def run(ctx):
     ctx.log("SimplexHOLWrapper stream done (%d)" % len(sys6))
 
 
+def load_simplex_corpus(ctx):
+    p = os.path.join(ctx.verif, "corpus", "c16_simplex.json")
+    if os.path.exists(p):
+        with open(p) as f:
+            return json.load(f)
+    return []
+
+
 def load_corpus(ctx):
     p = os.path.join(ctx.verif, "corpus", "c16.json")
     if os.path.exists(p):
@@ -1442,6 +1459,10 @@ def replay(ctx, rp):
         # the recorded encoding is re-used by re-seeding is not possible; try both encodings of every row
         for _ in range(1 if len(rows) > 6 else 8):
             if r["kind"] == "simplex":
+                if r.get("enc") and len(r["enc"]) == len(rows):
+                    if _ == 0:
+                        check_simplex(ctx, simplex, [(rows, "replay")], "replay", encs=[[bool(e) for e in r["enc"]]])
+                    continue
                 check_simplex(ctx, simplex, [(rows, "replay")], "replay%d" % _)
             elif r["kind"] == "bb":
                 check_bb(ctx, simplex, [(rows, "replay")], "replay%d" % _)
@@ -1480,10 +1501,17 @@ MANIFEST = {
             "rational solution; the stuck row is the Farkas-style explanation), handle_assertion_sat_sound / handle_assertion_unsat_sound, and "
             "end to end simplex_sat_sound / simplex_unsat_sound (Simplex(); add_ineqs(qs); handle_assertion(): no exception => mapping satisfies "
             "every given constraint except the ignored form 0*x ~ b; UNSATException / AssertUpper/LowerException => qs has no rational "
-            "solution), bb_sat_sound_partial (a branch-and-bound node is such a run on a superset of the constraints, so a mapping it returns "
-            "satisfies the original constraints; the search loop is not modelled). All for every fuel: termination of check is NOT proved (the code repairs the last violated basic variable, not "
-            "Bland's rule); the outcome 'fuel' claims nothing. NOT modelled / not proved: branch_and_bound (its verdicts are compared with Z3 "
-            "and brute force, witnesses go through checkWitness), simplex_strict (delta-pairs; Z3 and exact witness evaluation), the "
+            "solution); about the model of branch_and_bound's search loop (queue, all_integer, the variables find_not_int_var picked in the "
+            "real run as an oracle argument, UNSAT/Assert exceptions close a node; tied by its own correspondence stream: result, node "
+            "count, returned mapping): branch_covers_integers, bb_sat_sound (a returned mapping is an integer solution of the original "
+            "constraints), bb_unsat_sound_partial (the loop ending with an empty queue means there is no integer solution - only for runs "
+            "within the node budget in which no check() hits the fuel; other exceptions inside a node, which the bare except would also "
+            "treat as 'infeasible', are not modelled: none occurs, the harness counts them). All for every fuel: termination of check is NOT proved in Lean. The pinned code (last violated basic variable, first "
+            "suitable non-basic one) does cycle: a search over 3.3 million random degenerate systems found inputs on which handle_assertion "
+            "never returns (one with 4 variables and 8 rows); fix C16-5 makes the choice Bland's rule, the model follows it, a confirmed "
+            "time-out of handle_assertion is now a violation (simplex:nontermination), and 1.4 million further random systems showed no cycle "
+            "with the fix; the outcome 'fuel' of the model claims nothing. NOT modelled / not proved: termination of branch_and_bound "
+            "(node budget; 'gave up' is no answer), simplex_strict (delta-pairs; Z3 and exact witness evaluation), the "
             "proof-producing wrappers (checked by theory.check_proof). In addition every answer of the real Simplex is judged per run: "
             "witnesses go through checkWitness(Q), 'unsatisfiable' answers are certified by checkFarkas whenever Farkas multipliers "
             "can be read from the solver's explanation (internal fields; if not, or if they do not check, the verdict is decided by Z3 - only "
@@ -1500,6 +1528,11 @@ MANIFEST = {
     "design_ref": "DESIGN.md 4/C16",
 }
 FINDINGS = [
+    {"status": "fixed", "key": "simplex:nontermination:[[2,3,-2,0,0],[-1,-1,-1,-4,-1],[-4,-3,-1,4,2],[-3,2,-3,-2,1],[1,0,2,1,0],[1,-2,-1,2,2],[-3,1,0,1,0],[2,0,1,1,0]]/glllllgg",
+     "commit": "fixes/C16-5.patch",
+     "what": "Simplex.check() repaired the LAST violated basic variable with the FIRST suitable non-basic one and cycles: "
+             "handle_assertion() never returns on this 4-variable, 8-row system (176000 pivots in 60 s), nor on a satisfiable 5-variable 13-row "
+             "system; found by a search over 3.3 million random degenerate systems; fixed by Bland's rule (smallest violated basic variable)"},
     {"status": "fixed", "key": "omega:bad-witness:[[2,-1],[-2,1]]", "commit": "0df13d5",
      "what": "solve_matrix([[2,-1],[-2,1]]) = SAT {0: 1}: input rows were not gcd-normalised although solve/one_var_analysis assume it; "
              "also wrong UNSAT ([[-1,1],[2,-2],[1,-1]]), false constant rows ignored ([[1,0],[0,-1]] = SAT), TypeError on constant-only systems"},
